@@ -23,6 +23,7 @@ type FuncReport struct {
 	Blocks     int
 	Instrs     int
 	Err        string
+	ObjInvs    []string
 	Witness    []Witness
 	Replay     string
 	PkgDir     string
@@ -111,6 +112,9 @@ func (x *Engine) verifyFunc(fs *FuncSpec, cs *Clause) (rep *FuncReport) {
 	for _, c := range fs.Requires {
 		ev := &Eval{x: x, st: st, old: st, env: fr.env, pkg: pkg}
 		x.assume(st, x.safeEvalBool(ev, c))
+		if c.Kind == "objinv" {
+			x.objInvs[fs.Key+": "+c.Text] = true
+		}
 	}
 	if cs != nil {
 		ev := &Eval{x: x, st: st, old: st, env: fr.env, pkg: pkg}
@@ -229,6 +233,9 @@ func (x *Engine) verifyFunc(fs *FuncSpec, cs *Clause) (rep *FuncReport) {
 	}
 	sort.Strings(rep.Assumed)
 	rep.Notes = x.notes
+	for k := range x.objInvs {
+		rep.ObjInvs = append(rep.ObjInvs, shortKey(k))
+	}
 	rep.Decls = x.decls
 	rep.Script = x.script
 	return rep
